@@ -780,7 +780,7 @@ def index_maps(repo, res):
 
 @rule(
     "QRULE-GROUP",
-    ["C11", "C01", "C02", "C06", "C19"],
+    ["C11", "C01", "C02", "C06", "C19", "C09"],
     "_group_integrands_by_quadrature_rule, interpreted with the basix / quadrature helpers modelled symbolically: every "
     "integrand is filed under (integration-entity type, rule) where the rule is exactly the one its own metadata selects - "
     "default schemes through create_quadrature_points_and_weights(integral type, cell, degree, scheme, argument elements, "
@@ -823,6 +823,9 @@ def qrule_group(repo, res):
         tag = lambda n_: f"{n_},{degree},{scheme},{elements},{tp_}"  # noqa: E731
         return ({n_: f"P[{tag(n_)}]" for n_ in names}, {n_: f"W[{tag(n_)}]" for n_ in names}, {})
 
+    from ..npmodel import NDArr as _NDA, NPFloat32 as _NPF32
+    made = []
+
     def mk():
         it = Interp(repo, load_classes(repo), primary=RP)
         it.overrides["basix_cell_from_string"] = _PyCall(lambda s_: "CellType.point" if s_ == "vertex" else f"CellType.{s_}")
@@ -831,9 +834,22 @@ def qrule_group(repo, res):
         it.overrides["basix.cell.volume"] = _PyCall(lambda ct: vol[ct])
         it.overrides["basix.CellType.point"] = "CellType.point"
         it.overrides["np.full"] = _PyCall(lambda n_, v, dtype=None: [v] * n_)
-        it.overrides["np.asarray"] = _PyCall(lambda x, **k: x)
+        def asarray(x, dtype=None, **k):
+            # NumPy semantics: an array of another floating type is converted, each element to the double of the same value
+            if dtype is not None and "float64" in str(dtype) and isinstance(x, _NDA):
+                conv = lambda v: [conv(e) for e in v] if isinstance(v, list) else (float(v) if isinstance(v, _NPF32) else v)  # noqa: E731
+                return _NDA(conv(x.tolist()), x.shape)
+            return x
+        it.overrides["np.asarray"] = _PyCall(asarray)
+        it.overrides["np.array"] = _PyCall(asarray)
+        it.overrides["np.ascontiguousarray"] = _PyCall(asarray)
+        it.overrides["np.float64"] = "np.float64"
         it.overrides["create_quadrature_points_and_weights"] = _PyCall(cqpw)
-        it.overrides["QuadratureRule"] = _PyCall(lambda p_, w_, tf=None: ("rule", str(p_), str(w_), str(tf)))
+
+        def qrule(p_, w_, tf=None):
+            made.append((p_, w_))
+            return ("rule", str(p_), str(w_), str(tf))
+        it.overrides["QuadratureRule"] = _PyCall(qrule)
         it.overrides["warnings.warn"] = _PyCall(lambda *a, **k: None)
         return it
 
@@ -841,7 +857,6 @@ def qrule_group(repo, res):
         return Node("Integral", metadata=_PyCall(lambda _m=md: dict(_m)), integrand=_PyCall(lambda _k=k: f"integrand{_k}"))
 
     D = lambda deg, scheme="default": {"quadrature_degree": deg, "quadrature_rule": scheme}  # noqa: E731
-    from ..npmodel import NDArr as _NDA
     CPa, CWa = _NDA([[0.25], [0.75]], (2, 1)), _NDA([0.5, 0.5], (2,))
     CU = {"quadrature_rule": "custom", "quadrature_points": CPa, "quadrature_weights": CWa}
     cases = [
@@ -878,6 +893,25 @@ def qrule_group(repo, res):
         if norm != want_n:
             res.fail(key, f"`{label}`: integrands are filed as {norm}, expected {want_n}: each integrand must be integrated with the rule its own metadata "
                      "selects, under the type of its integration entity", m.line(f.node))
+    # custom rules given in single precision: the numbers that reach the rule are printed by both formatters with str() / format(); a float32 scalar prints as the
+    # shortest decimal that identifies it among float32 values, which read as a double is another number
+    key = f"{f.key}:custom rule given as float32 arrays"
+    res.ob(key)
+    third = _NPF32(1 / 3)
+    md32 = {"quadrature_rule": "custom", "quadrature_points": _NDA([[_NPF32(0.1)], [_NPF32(0.7)]], (2, 1)), "quadrature_weights": _NDA([third, _NPF32(2 / 3)], (2,))}
+    del made[:]
+    try:
+        mk().call_f(f, [[integral(0, md32)], "ELS", "cell", Node("Cell", cellname="triangle"), False])
+        flat = [v for p_, w_ in made for arr_ in (p_, w_) if isinstance(arr_, _NDA) for v in arr_.flat()]
+        lossy = [v for v in flat if float(str(v)) != float(v)]
+        if not made:
+            res.fail(key, "no quadrature rule is built for a custom rule given as float32 arrays", m.line(f.node))
+        elif lossy:
+            res.fail(key, f"custom points / weights given as float32 arrays reach the quadrature rule as float32 scalars: the value {float(lossy[0])!r} is printed into the "
+                     f"kernel as {str(lossy[0])} (the shortest decimal that identifies it among float32 values), which the C compiler reads as another double - the "
+                     "kernel does not integrate with the rule it was given", m.line(f.node), props=("C11", "C09", "C01"))
+    except Raised as e:
+        res.fail(key, f"_group_integrands_by_quadrature_rule raises ({e.what}) on a custom rule given as float32 arrays", m.line(f.node))
     # a custom rule whose points and weights do not fit together is rejected: n points of the entity's dimension, n weights
     bad = {
         "three points, two weights": (_NDA([[0.1], [0.5], [0.9]], (3, 1)), _NDA([0.5, 0.5], (2,))),
